@@ -433,6 +433,20 @@ func main() {
 			}
 		}
 	}
+	// many same-type leaves in ONE decode call: crosses every chunk of the decoder's per-type slab
+	// (the first 32 chunks hold 1+4+16+64+28*128 = 3669 leaves) and well beyond
+	for _, n := range []int{341, 342, 3669, 3670, 3671, 5000, 70000} {
+		for _, leaf := range [][]byte{{0x41, 0x00}, {0x21, 0x01, 0x07}, {0x25, 0x01, 0x01}, {0xA5, 0x01, 0x09}, {0x71, 0x04, 0, 0, 0, 5}, {0x81, 0x08, 0, 0, 0, 0, 0, 0, 0, 0}} {
+			if n == 70000 && leaf[0] != 0x41 {
+				continue
+			}
+			buf := []byte{0x03, byte(n >> 16), byte(n >> 8), byte(n)}
+			for i := 0; i < n; i++ {
+				buf = append(buf, leaf...)
+			}
+			x.one(buf, "many-leaves", "accept")
+		}
+	}
 	// allocation amplification: k nested lists, each claiming as many children as its remaining bytes allow
 	for _, total := range []int{64, 300, 1000, 5000, 20000} {
 		for _, k := range []int{1, 2, 8, 32, 64, 65} {
